@@ -52,3 +52,19 @@ func VerifDistributePoolRewards(total uint64, delegatorStake map[AddrKeyHash]uin
 func VerifStubDistribute(_ PoolKeyHash, total uint64, _ map[AddrKeyHash]uint64, _ *PoolRegistrationCertificate, _ RewardSnapshot) *PoolRewards {
 	return &PoolRewards{OperatorRewards: total, DelegatorRewards: map[AddrKeyHash]uint64{}, TotalRewards: total}
 }
+
+// ---- bech32 text form (address HRP gate) ----
+
+// VerifBech32HRP / VerifBech32Data: what decoding the address text yields (prepared by the
+// harness: a human-readable part and the 5-bit groups of the payload).
+var (
+	VerifBech32HRP  string
+	VerifBech32Data []byte
+)
+
+// VerifStubBech32Decode is the contract of bech32.DecodeNoLimit for a well-formed bech32
+// string: its human-readable part and its data part (checksum verification and the character
+// set are the library's business).
+func VerifStubBech32Decode(s string) (string, []byte, error) {
+	return VerifBech32HRP, VerifBech32Data, nil
+}
